@@ -127,7 +127,36 @@ def method_signature(P, f, attr):
 
 
 # ---------------------------------------------------------------------------------------------- A. keywords -> positional
+def _strip_defaults(P, f, call):
+    """`g(x, 0)` where 0 is g's default for that parameter is `g(x)` (trailing positional constants only)"""
+    if call.keywords or not call.args or any(isinstance(a, ast.Starred) for a in call.args):
+        return
+    t = _resolve(P, f, call)
+    if not isinstance(t, str) or t not in P.funcs or isinstance(P.funcs[t].node, ast.Lambda):
+        return
+    fn = P.funcs[t].node
+    a = fn.args
+    names = [x.arg for x in a.posonlyargs + a.args]
+    bound = isinstance(call.func, ast.Attribute) and names and names[0] in ('self', 'cls')
+    deco = [ast.unparse(d) for d in fn.decorator_list]
+    if 'staticmethod' in deco:
+        bound = False
+    if bound:
+        names = names[1:]
+    defaults = dict(zip(names[len(names) - len(a.defaults):], a.defaults)) if a.defaults else {}
+    while call.args and len(call.args) <= len(names):
+        nm = names[len(call.args) - 1]
+        d = defaults.get(nm)
+        v = call.args[-1]
+        if d is not None and isinstance(d, ast.Constant) and isinstance(v, ast.Constant) and type(d.value) is type(v.value) and d.value == v.value:
+            call.args.pop()
+        else:
+            break
+
+
 def _positional(P, f, call):
+    if not call.keywords:
+        _strip_defaults(P, f, call)
     if not call.keywords or any(k.arg is None for k in call.keywords) or any(isinstance(a, ast.Starred) for a in call.args):
         return
     t = _resolve(P, f, call)
@@ -158,6 +187,8 @@ def _positional(P, f, call):
     if len(args) > len(call.args):
         call.args = args
         call.keywords = [k for k in call.keywords if k.arg in rest]
+    if not call.keywords:
+        _strip_defaults(P, f, call)
 
 
 # ---------------------------------------------------------------------------------------------- B. helper expansion
@@ -260,6 +291,16 @@ def _expand(P, helper, call, target, counter, at):
         isinstance(x, ast.Name) and x.id == p and isinstance(x.ctx, ast.Store) for x in ast.walk(fn))}
     for p in keep:
         ren.pop(p, None)
+    # a parameter the helper never re-binds, given a plain local of the caller, is that local (no copy): safe because the only
+    # assignments the expansion makes to caller variables are the result assignments, each followed by the exit of the expansion
+    stored = {x.id for x in ast.walk(fn) if isinstance(x, ast.Name) and isinstance(x.ctx, (ast.Store, ast.Del))}
+    free = {x.id for x in ast.walk(fn) if isinstance(x, ast.Name)} - set(ren) - keep
+    direct = set()
+    for (p, v) in binds:
+        if p not in keep and isinstance(v, ast.Name) and p not in stored and v.id not in free and v.id not in ren.values():
+            ren[p] = v.id
+            direct.add(p)
+    keep = keep | direct
     body = [s for s in fn.body if not (isinstance(s, ast.Expr) and isinstance(s.value, ast.Constant) and isinstance(s.value.value, str))]
     body = [_Rename(ren).visit(s) for s in body]
     pre = [ast.copy_location(ast.Assign(targets=[ast.Name(id=ren.get(p, p), ctx=ast.Store())], value=v), at) for (p, v) in binds if p not in keep]
@@ -284,10 +325,42 @@ def _expand(P, helper, call, target, counter, at):
             nb.append(ast.copy_location(ast.Assign(targets=[_tgt(target)], value=ast.Constant(None)), at))
         if nb and isinstance(nb[-1], InlineExit):
             nb.pop()        # falling off the end of the block is the same exit
-        out = pre + [ast.copy_location(InlineBlock(body=nb), at)]
+        nb = _simplify_block(nb)
+        out = pre + ([ast.copy_location(InlineBlock(body=nb), at)] if any(isinstance(x, InlineExit) for s_ in nb for x in ast.walk(s_)) else nb)
     for s in out:
         ast.fix_missing_locations(s)
     return out
+
+
+def _simplify_block(nb):
+    """tidy an expanded body: `x = x` dropped; `if t: InlineExit` followed by REST (which has no exit) is `if not t: REST`"""
+    def noop(s_):
+        return isinstance(s_, ast.Assign) and len(s_.targets) == 1 and isinstance(s_.targets[0], ast.Name) and isinstance(s_.value, ast.Name) \
+            and s_.targets[0].id == s_.value.id
+
+    def clean(stmts):
+        out = []
+        for s_ in stmts:
+            if noop(s_):
+                continue
+            for fld in ('body', 'orelse', 'finalbody'):
+                b = getattr(s_, fld, None)
+                if isinstance(b, list) and b and isinstance(b[0], ast.stmt) and not isinstance(s_, FuncT + (ast.ClassDef,)):
+                    setattr(s_, fld, clean(b) or ([ast.copy_location(InlineExit(), s_)] if False else [ast.copy_location(ast.Pass(), s_)]))
+            out.append(s_)
+        return out
+    nb = clean(nb)
+    # an `if` whose body became only `pass` + exit
+    for s_ in nb:
+        if isinstance(s_, ast.If):
+            s_.body = [x for x in s_.body if not isinstance(x, ast.Pass)] or [ast.copy_location(ast.Pass(), s_)]
+    if nb and isinstance(nb[0], ast.If) and not nb[0].orelse and len(nb[0].body) == 1 and isinstance(nb[0].body[0], InlineExit):
+        rest = nb[1:]
+        if rest and not any(isinstance(x, InlineExit) for s_ in rest for x in ast.walk(s_)):
+            t = nb[0].test
+            neg = t.operand if isinstance(t, ast.UnaryOp) and isinstance(t.op, ast.Not) else ast.copy_location(ast.UnaryOp(op=ast.Not(), operand=t), t)
+            return [ast.copy_location(ast.If(test=neg, body=rest, orelse=[]), nb[0])]
+    return nb
 
 
 def _tgt(t):
@@ -432,8 +505,18 @@ def _first_helper_call(P, f, expr, new):
                 visit(val, node, fld, None, cond)
     visit(expr, None, None, None, False)
     # evaluation order = order of completion of the calls (arguments first): `found` is already in that order
+    # calls evaluated before a helper call are no obstacle when they are the helper call's own arguments (bound first, in order)
+    first_helper = None
+    for ent in found:
+        t = _resolve(P, f, ent[5])
+        if isinstance(t, str) and t in new and not ent[6]:
+            first_helper = ent[5]
+            break
+    inside = {id(x) for x in ast.walk(first_helper)} if first_helper is not None else set()
     for (parent, field, idx, node, is_await, c, cond) in found:
         t = _resolve(P, f, c)
+        if c is not first_helper and id(c) in inside:
+            continue
         if isinstance(t, str) and t in new and not cond:
             h = P.funcs[t]
             if isinstance(h.node, ast.Lambda):
@@ -461,6 +544,25 @@ def _process_block(P, f, stmts, new, state):
         if isinstance(s, ast.Try):
             for h in s.handlers:
                 h.body = _process_block(P, f, h.body, new, state)
+        # a list comprehension that calls a new helper is spelled as a loop first, so that the call is at statement level
+        if isinstance(s, (ast.Return, ast.Assign)) and isinstance(getattr(s, 'value', None), ast.ListComp) and len(s.value.generators) == 1 \
+                and not s.value.generators[0].is_async and any(
+                    isinstance(c_, ast.Call) and isinstance(_resolve(P, f, c_), str) and _resolve(P, f, c_) in new for c_ in ast.walk(s.value)) \
+                and (isinstance(s, ast.Return) or (len(s.targets) == 1 and isinstance(s.targets[0], ast.Name))):
+            g = s.value.generators[0]
+            x = s.targets[0].id if isinstance(s, ast.Assign) else f'ret__c{s.lineno}'
+            inner = ast.Expr(value=ast.Call(func=ast.Attribute(value=ast.Name(id=x, ctx=ast.Load()), attr='append', ctx=ast.Load()), args=[s.value.elt], keywords=[]))
+            for c_ in reversed(g.ifs):
+                inner = ast.If(test=c_, body=[inner], orelse=[])
+            loop = ast.copy_location(ast.For(target=g.target, iter=g.iter, body=[inner], orelse=[], type_comment=None), s)
+            init = ast.copy_location(ast.Assign(targets=[ast.Name(id=x, ctx=ast.Store())], value=ast.List(elts=[], ctx=ast.Load())), s)
+            ast.fix_missing_locations(loop)
+            ast.fix_missing_locations(init)
+            out.append(init)
+            out += _process_block(P, f, [loop], new, state)
+            if isinstance(s, ast.Return):
+                out.append(ast.copy_location(ast.Return(value=ast.copy_location(ast.Name(id=x, ctx=ast.Load()), s)), s))
+            continue
         pre = []
         for _round in range(6):
             hit = None
@@ -515,6 +617,8 @@ def _literalish(e):
         return all(_literalish(x) for x in e.elts)
     if isinstance(e, ast.Dict):
         return all(k is not None and _literalish(k) and _literalish(v) for k, v in zip(e.keys, e.values))
+    if isinstance(e, ast.Name):
+        return True          # another module-level name (a class, a builtin, another constant)
     if isinstance(e, ast.Attribute):
         b = e
         while isinstance(b, ast.Attribute):
@@ -536,6 +640,18 @@ class _ConstSubst(ast.NodeTransformer):
     def visit_Name(self, n):
         if isinstance(n.ctx, ast.Load) and n.id in self.m:
             return ast.copy_location(copy.deepcopy(self.m[n.id]), n)
+        return n
+
+
+class _FoldInts(ast.NodeTransformer):
+    def visit_BinOp(self, n):
+        self.generic_visit(n)
+        if isinstance(n.left, ast.Constant) and isinstance(n.right, ast.Constant) and isinstance(n.left.value, int) and isinstance(n.right.value, int) \
+                and not isinstance(n.left.value, bool) and not isinstance(n.right.value, bool):
+            ops = {ast.Add: lambda a, b: a + b, ast.Sub: lambda a, b: a - b, ast.Mult: lambda a, b: a * b, ast.LShift: lambda a, b: a << b if b < 64 else None}
+            f = ops.get(type(n.op))
+            if f is not None and f(n.left.value, n.right.value) is not None:
+                return ast.copy_location(ast.Constant(f(n.left.value, n.right.value)), n)
         return n
 
 
@@ -561,11 +677,18 @@ def inline_new_constants(P):
         cands = {k: v for k, v in cands.items() if stores.get(k) == 1}
         if not cands:
             continue
+        # constants defined from earlier new constants, and integer arithmetic on them, are folded
+        done = {}
+        for k, v in cands.items():
+            v = _FoldInts().visit(_ConstSubst(done).visit(copy.deepcopy(v)))
+            done[k] = v
+        cands = done
         for fn in [x for x in ast.walk(tree) if isinstance(x, FuncT)]:
             bound = _locals_of(fn) | {nm for x in ast.walk(fn) if isinstance(x, ast.Global) for nm in x.names}
             mm = {k: v for k, v in cands.items() if k not in bound}
             if mm and any(isinstance(x, ast.Name) and x.id in mm for x in ast.walk(fn)):
                 _ConstSubst(mm).visit(fn)
+                _FoldInts().visit(fn)
                 n += 1
     return n
 
@@ -658,6 +781,7 @@ def normalise_calls(P):
                 if q in new or isinstance(f.node, ast.Lambda):
                     continue
                 n0 = len(state['expanded'])
+                state['n'] = 0          # suffixes count per caller: twin callers get twin expansions
                 f.node.body = _process_block(P, f, f.node.body, new, state)
                 if len(state['expanded']) > n0:
                     from .canon import canonicalise_function
